@@ -68,7 +68,12 @@ def gen_config(rng, quick, force=None):
     if problem == "mock":
         kw["along"] = rng.choice(["vlinear", "vlinear", "vfluct", "vfluct", "linear", "fluct",
                                   "neutral"])
-        kw["interactor"] = 0 if rng.chance(1, 10) else 1
+        # interactor 0 = stock MockModel (empty host kernel).  Only with the neutral along-step:
+        # with energy loss a stopped mock particle is `has_at_rest` (xs(0) > 0) but no stock model
+        # covers E = 0, so select_discrete_interaction reads model_ids[invalid] and stores a
+        # garbage ActionId (release build) — a fixture artefact that corrupts memory in the
+        # action-sorting track orders (see the final report / corpus/C05 note)
+        kw["interactor"] = 0 if (kw["along"] == "neutral" and rng.chance(1, 2)) else 1
         kw["xsscale"] = rng.choice([1, 30, 300, 3000])
         kw["lossscale"] = rng.choice([1, 1, 0.1, 3])
         kw["posrest"] = rng.below(2)
@@ -81,9 +86,11 @@ def gen_config(rng, quick, force=None):
                       "fixed_step_limiter": rng.choice([0, 0, 0, 0.05])}
         for _ in range(rng.range(1, 4)):
             name = rng.choice(MOCK_PARTICLES[:5] if not rng.chance(1, 12) else MOCK_PARTICLES)
-            e = math.exp(math.log(2e-3) + rng.unit() * (math.log(90.0) - math.log(2e-3)))
+            # <= 10 MeV: common upper limit of the stock mock process ranges (above it a process
+            # can still be selected — flat xs extrapolation — but has no model: fixture artefact)
+            e = math.exp(math.log(2e-3) + rng.unit() * (math.log(9.9) - math.log(2e-3)))
             if rng.chance(1, 8):
-                e = rng.choice([1e-3, 1.0, 10.0, 99.0, 5e-4])
+                e = rng.choice([1e-3, 1.0, 9.99, 5.0, 5e-4])
             r = rng.unit() * 6.5
             d = unit_dir(rng)
             pos = [r * c for c in unit_dir(rng)]
